@@ -3,9 +3,10 @@
 (* Scale factors s_j = 2^-(2+j), j = 1..9, weights w_j = s_j, so that an error   *)
 (* sequence e_j is given as r_j = e_j s_j.  TLC enumerates families              *)
 (*   quad      e = a s^2                         accepted                       *)
-(*   quartic   e = a s^2 + b s^4, |b| <= 16 a    accepted (either sign of b)     *)
-(*   edge      e_{j+1} = (5/16) e_j              decay clause holds, end clause not *)
-(*   slow      e_{j+1} = (3/8) e_j               rejected                       *)
+(*   quartic   e = a s^2 + b s^4, -26 a <= b <= 16 a  accepted (either sign of b; b = -26 a *)
+(*             is the nearly-cancelling lens that showed 5/16 to be too tight)     *)
+(*   edge      e_{j+1} = (7/16) e_j              decay clause holds, end clause not *)
+(*   slow      e_{j+1} = (1/2) e_j               rejected                       *)
 (*   linear    e = a s                           rejected                       *)
 (*   offset    e = a s^2 + c                     rejected (wrong limit)          *)
 (*   stall     r = a s^3 + c  (absolute offset above the floor) rejected        *)
@@ -17,7 +18,7 @@ EXTENDS Limit, TLC
 VARIABLES kind, a, b, c
 vars == <<kind, a, b, c>>
 Kinds == {"quad", "quartic", "edge", "slow", "linear", "offset", "stall", "noise", "floor"}
-Init == kind \in Kinds /\ a \in 1..4 /\ b \in {-16, -7, -1, 0, 3, 16} /\ c \in 1..2
+Init == kind \in Kinds /\ a \in 1..4 /\ b \in {-26, -16, -7, -1, 0, 3, 16} /\ c \in 1..2
 Spec == Init /\ [][FALSE]_vars
 S(j) == DShift(DOne, -(2 + j))
 Sseq == Tup9(S)
@@ -28,8 +29,8 @@ RECURSIVE Pw(_, _)
 Pw(x, n) == IF n = 0 THEN DOne ELSE DMul(x, Pw(x, n - 1))
 Rseq == CASE kind = "quad" -> [j \in 1..NJ |-> DMul(DInt(a), Pw(S(j), 3))]
           [] kind = "quartic" -> [j \in 1..NJ |-> DAdd(DMul(DInt(a), Pw(S(j), 3)), DMul(DInt(b * a), Pw(S(j), 5)))]
-          [] kind = "edge" -> [j \in 1..NJ |-> DMul(DMul(DInt(a), Pw(DShift(DInt(5), -4), j)), S(j))]
-          [] kind = "slow" -> [j \in 1..NJ |-> DMul(DMul(DInt(a), Pw(DShift(DInt(3), -3), j)), S(j))]
+          [] kind = "edge" -> [j \in 1..NJ |-> DMul(DMul(DInt(a), Pw(DShift(DInt(7), -4), j)), S(j))]
+          [] kind = "slow" -> [j \in 1..NJ |-> DMul(DMul(DInt(a), Pw(DShift(DInt(1), -1), j)), S(j))]
           [] kind = "linear" -> [j \in 1..NJ |-> DMul(DInt(a), Pw(S(j), 2))]
           [] kind = "offset" -> [j \in 1..NJ |-> DAdd(DMul(DInt(a), Pw(S(j), 3)), DMul(DShift(DInt(c), -10), S(j)))]
           [] kind = "stall" -> [j \in 1..NJ |-> DAdd(DMul(DInt(a), Pw(S(j), 3)), DShift(DInt(c), -18))]
@@ -40,7 +41,7 @@ Verdict == Limit(Rseq, Sseq, Sseq, Floor)
 Notes == LimNotes(Rseq, Sseq, Sseq, Floor)
 Accepting == {"quad", "quartic", "noise", "floor"}
 AcceptsQuadratic == kind \in Accepting => Verdict = {}
-\* the stated factor itself passes the decay clause; over eight steps (5/16)^8 > 2 (1/4)^8, so the
+\* the stated factor itself passes the decay clause; over eight steps (7/16)^8 > 2 (1/4)^8, so the
 \* end clause (which pins the overall order to two) objects
 EdgeFactor == kind = "edge" => Verdict = {"end"}
 RejectsOthers == kind \notin (Accepting \cup {"edge"}) => "decay" \in Verdict
